@@ -99,6 +99,7 @@ def Live.step (l : Live) : Op → Live
   | .area a =>
     match a.kind with
     | .proto => { l with protos := l.protos ++ [a] }
+    | .sideProto => { l with protos := l.protos ++ [a] }
     | .cand => { l with cands := l.cands ++ [a] }
     | .sub => { l with subs := l.subs ++ [a] }
     | .region => { l with regions := l.regions ++ [a] }
